@@ -233,7 +233,8 @@ class ParentTranslator:
                 if refmode == 'auto' or refmode == 'relative':
                     if_clause = 'if ' + (base_k + '.__self__' if isinstance(v, Cells) else base_k) + '._mx_is_in(base_root) else ' + base_k
                     result.append(self_k + ' = ' + self.ref_value(parent, v) + ' ' + if_clause)
-                elif refmode == 'absolute':
+                elif refmode == 'absolute' or refmode is None:
+                    # Model-level references have no reference mode
                     result.append(self_k + ' = ' + base_k)
                 else:
                     raise RuntimeError('must not happen')
